@@ -252,6 +252,72 @@ pub fn number_is_safe_integer(
     }
 }
 
+// ═══════════════════════════════════════════════════════════════════════════════
+// Exact decimal helpers for toFixed / toExponential / toPrecision
+// ═══════════════════════════════════════════════════════════════════════════════
+
+/// Exact decimal expansion of a finite, non-negative double.
+/// Returns the significant digits (no leading or trailing zeros) and the decimal exponent `e`
+/// such that the value is d1.d2d3... × 10^e. Zero gives an empty digit list.
+fn exact_digits(x: f64) -> (Vec<u8>, i32) {
+    // A double has at most 1074 fractional decimal digits; Rust prints them exactly.
+    let s = format!("{:.1074}", x);
+    let (int_part, frac_part) = s.split_once('.').unwrap_or((s.as_str(), ""));
+    let all: Vec<u8> = int_part
+        .bytes()
+        .chain(frac_part.bytes())
+        .map(|b| b.wrapping_sub(b'0'))
+        .collect();
+    let Some(first) = all.iter().position(|&d| d != 0) else {
+        return (Vec::new(), 0);
+    };
+    let mut digits: Vec<u8> = all.get(first..).unwrap_or_default().to_vec();
+    while digits.last() == Some(&0) {
+        digits.pop();
+    }
+    (digits, int_part.len() as i32 - 1 - first as i32)
+}
+
+/// Round to `keep` (>= 1) significant digits, ties away from zero as the specification's
+/// "pick the larger n" demands. Returns exactly `keep` digits and the adjusted exponent.
+fn round_significant(digits: &[u8], e: i32, keep: usize) -> (Vec<u8>, i32) {
+    let mut out: Vec<u8> = digits.iter().copied().take(keep).collect();
+    out.resize(keep, 0);
+    if digits.get(keep).copied().unwrap_or(0) >= 5 {
+        let mut i = keep;
+        loop {
+            if i == 0 {
+                // 99..9 rounded up to 100..0
+                out.insert(0, 1);
+                out.pop();
+                return (out, e + 1);
+            }
+            i -= 1;
+            if let Some(d) = out.get_mut(i) {
+                if *d == 9 {
+                    *d = 0;
+                } else {
+                    *d += 1;
+                    break;
+                }
+            }
+        }
+    }
+    (out, e)
+}
+
+fn digits_to_string(digits: &[u8]) -> String {
+    digits.iter().map(|d| (b'0' + *d) as char).collect()
+}
+
+fn exponent_suffix(e: i32) -> String {
+    if e < 0 {
+        format!("e-{}", -e)
+    } else {
+        format!("e+{}", e)
+    }
+}
+
 // Number.prototype.toFixed
 pub fn number_to_fixed(
     interp: &mut Interpreter,
@@ -267,24 +333,52 @@ pub fn number_to_fixed(
         ));
     }
 
-    let result = format!("{:.prec$}", n, prec = digits as usize);
-    Ok(Guarded::unguarded(JsValue::String(JsString::from(result))))
+    if !n.is_finite() || n.abs() >= 1e21 {
+        return Ok(Guarded::unguarded(JsValue::String(JsString::from(
+            crate::value::number_to_string(n),
+        ))));
+    }
+
+    let f = digits as usize;
+    // n < 0 is false for -0, which therefore prints without a sign
+    let sign = if n < 0.0 { "-" } else { "" };
+    let (exact, e) = exact_digits(n.abs());
+    // Integer nearest to |n| * 10^f (ties up), as a digit string
+    let int_len = e + 1 + digits; // digits of |n| * 10^f before the decimal point
+    let mut m = if exact.is_empty() || int_len < 0 {
+        String::from("0")
+    } else if int_len == 0 {
+        if exact.first().copied().unwrap_or(0) >= 5 {
+            String::from("1")
+        } else {
+            String::from("0")
+        }
+    } else {
+        let (rounded, rounded_e) = round_significant(&exact, e, int_len as usize);
+        let mut text = digits_to_string(&rounded);
+        if rounded_e > e {
+            // 99.9 rounded up to 100: the integer gained a digit
+            text.push('0');
+        }
+        text
+    };
+    if f > 0 {
+        if m.len() <= f {
+            m = format!("{}{}", "0".repeat(f + 1 - m.len()), m);
+        }
+        let split = m.len() - f;
+        let (int_part, frac_part) = m.split_at(split);
+        m = format!("{}.{}", int_part, frac_part);
+    }
+    Ok(Guarded::unguarded(JsValue::String(JsString::from(
+        format!("{}{}", sign, m),
+    ))))
 }
 
 /// Format a number as a string in JavaScript format
 /// (handles Infinity, -Infinity, NaN properly)
 fn format_number_js(n: f64) -> String {
-    if n.is_nan() {
-        "NaN".to_string()
-    } else if n.is_infinite() {
-        if n.is_sign_positive() {
-            "Infinity".to_string()
-        } else {
-            "-Infinity".to_string()
-        }
-    } else {
-        format!("{}", n)
-    }
+    crate::value::number_to_string(n)
 }
 
 // Number.prototype.toString
@@ -308,45 +402,93 @@ pub fn number_to_string(
         ))));
     }
 
-    // For other radixes, we need integer conversion
-    if !n.is_finite() || math::fract(n) != 0.0 {
+    if !n.is_finite() {
         return Ok(Guarded::unguarded(JsValue::String(JsString::from(
             format_number_js(n),
         ))));
     }
 
-    let int_val = n as i64;
-    let result = match radix {
-        2 => format!("{:b}", int_val.abs()),
-        8 => format!("{:o}", int_val.abs()),
-        16 => format!("{:x}", int_val.abs()),
-        _ => {
-            // Generic radix conversion
-            const DIGITS: &[u8] = b"0123456789abcdefghijklmnopqrstuvwxyz";
-            let mut num = int_val.abs();
-            let mut result = String::new();
-            while num > 0 {
-                let digit_idx = (num % radix as i64) as usize;
-                // radix is validated to be 2-36, so digit_idx is always 0-35
-                if let Some(&ch) = DIGITS.get(digit_idx) {
-                    result.insert(0, ch as char);
+    Ok(Guarded::unguarded(JsValue::String(JsString::from(
+        double_to_radix_string(n, radix as u32),
+    ))))
+}
+
+/// Number::toString(radix) for radix != 10, following the algorithm V8 uses: the integer part
+/// is converted exactly, the fraction is expanded until the remaining digits could no longer be
+/// distinguished from the neighbouring doubles.
+fn double_to_radix_string(value: f64, radix: u32) -> String {
+    const CHARS: &[u8] = b"0123456789abcdefghijklmnopqrstuvwxyz";
+    let digit_char = |d: usize| CHARS.get(d).map(|c| *c as char).unwrap_or('0');
+    let radix_f = radix as f64;
+    let negative = value < 0.0;
+    let value = value.abs();
+
+    let mut integer = math::floor(value);
+    let mut fraction = value - integer;
+    // Half the distance to the next double: digits below it carry no information
+    let next = f64::from_bits(value.to_bits() + 1);
+    let mut delta = 0.5 * (next - value);
+    if delta <= 0.0 || delta.is_nan() {
+        delta = f64::from_bits(1);
+    }
+
+    let mut frac_digits: Vec<usize> = Vec::new();
+    if fraction >= delta {
+        loop {
+            fraction *= radix_f;
+            delta *= radix_f;
+            let digit = fraction as usize;
+            frac_digits.push(digit);
+            fraction -= digit as f64;
+            if (fraction > 0.5 || (fraction == 0.5 && (digit & 1) == 1)) && fraction + delta > 1.0 {
+                // Round up, propagating the carry towards the integer part
+                loop {
+                    match frac_digits.pop() {
+                        None => {
+                            integer += 1.0;
+                            break;
+                        }
+                        Some(d) => {
+                            if d + 1 < radix as usize {
+                                frac_digits.push(d + 1);
+                                break;
+                            }
+                        }
+                    }
                 }
-                num /= radix as i64;
+                break;
             }
-            if result.is_empty() {
-                result = "0".to_string();
+            if fraction < delta {
+                break;
             }
-            result
         }
-    };
+    }
 
-    let result = if int_val < 0 {
-        format!("-{}", result)
-    } else {
-        result
-    };
+    // Integer part: above 2^53 the low digits are zero in any radix worth printing
+    let mut int_digits: Vec<char> = Vec::new();
+    while integer >= 9007199254740992.0 {
+        integer /= radix_f;
+        int_digits.push('0');
+    }
+    loop {
+        let remainder = integer % radix_f;
+        int_digits.push(digit_char(remainder as usize));
+        integer = (integer - remainder) / radix_f;
+        if integer <= 0.0 {
+            break;
+        }
+    }
 
-    Ok(Guarded::unguarded(JsValue::String(JsString::from(result))))
+    let mut result = String::new();
+    if negative {
+        result.push('-');
+    }
+    result.extend(int_digits.iter().rev());
+    if !frac_digits.is_empty() {
+        result.push('.');
+        result.extend(frac_digits.iter().map(|d| digit_char(*d)));
+    }
+    result
 }
 
 // Number.prototype.toPrecision
@@ -363,6 +505,13 @@ pub fn number_to_precision(
         ))));
     }
 
+    // Not finite: ToString(x) comes before the range check in the specification
+    if !n.is_finite() {
+        return Ok(Guarded::unguarded(JsValue::String(JsString::from(
+            format_number_js(n),
+        ))));
+    }
+
     let precision = args.first().map(|v| v.to_number() as i32).unwrap_or(1);
 
     if !(1..=100).contains(&precision) {
@@ -371,46 +520,35 @@ pub fn number_to_precision(
         ));
     }
 
-    if !n.is_finite() {
-        return Ok(Guarded::unguarded(JsValue::String(JsString::from(
-            format_number_js(n),
-        ))));
-    }
+    let p = precision as usize;
+    let sign = if n < 0.0 { "-" } else { "" };
+    let (exact, e0) = exact_digits(n.abs());
+    let (m, e) = if exact.is_empty() {
+        ("0".repeat(p), 0)
+    } else {
+        let (rounded, e) = round_significant(&exact, e0, p);
+        (digits_to_string(&rounded), e)
+    };
 
-    let result = format!("{:.prec$e}", n, prec = (precision - 1) as usize);
-    // Parse and reformat to match JS behavior
-    let parts: Vec<&str> = result.split('e').collect();
-    if let [mantissa_str, exp_str] = parts.as_slice() {
-        let mantissa = mantissa_str.parse::<f64>().unwrap_or(0.0);
-        let exp: i32 = exp_str.parse().unwrap_or(0);
-
-        // If exponent is small enough, use fixed notation
-        if exp >= 0 && exp < precision {
-            let decimals = precision - 1 - exp;
-            if decimals >= 0 {
-                return Ok(Guarded::unguarded(JsValue::String(JsString::from(
-                    format!("{:.prec$}", n, prec = decimals as usize),
-                ))));
-            }
-        } else if (-4..0).contains(&exp) {
-            // For small numbers, use fixed notation
-            let decimals = precision - 1 - exp;
-            if (0..=100).contains(&decimals) {
-                return Ok(Guarded::unguarded(JsValue::String(JsString::from(
-                    format!("{:.prec$}", n, prec = decimals as usize),
-                ))));
-            }
+    let body = if !exact.is_empty() && (e < -6 || e >= precision) {
+        // Exponential notation
+        let (first, rest) = m.split_at(1);
+        if rest.is_empty() {
+            format!("{}{}", first, exponent_suffix(e))
+        } else {
+            format!("{}.{}{}", first, rest, exponent_suffix(e))
         }
-
-        // Use exponential notation
-        let exp_sign = if exp >= 0 { "+" } else { "" };
-        return Ok(Guarded::unguarded(JsValue::String(JsString::from(
-            format!("{}e{}{}", mantissa, exp_sign, exp),
-        ))));
-    }
+    } else if e == precision - 1 {
+        m
+    } else if e >= 0 {
+        let (int_part, frac_part) = m.split_at(e as usize + 1);
+        format!("{}.{}", int_part, frac_part)
+    } else {
+        format!("0.{}{}", "0".repeat((-(e + 1)) as usize), m)
+    };
 
     Ok(Guarded::unguarded(JsValue::String(JsString::from(
-        format!("{}", n),
+        format!("{}{}", sign, body),
     ))))
 }
 
@@ -428,7 +566,8 @@ pub fn number_to_exponential(
         ))));
     }
 
-    let digits = args.first().map(|v| v.to_number() as i32).unwrap_or(6);
+    let explicit = args.first().filter(|v| !v.is_undefined());
+    let digits = explicit.map(|v| v.to_number() as i32).unwrap_or(0);
 
     if !(0..=100).contains(&digits) {
         return Err(JsError::range_error(
@@ -436,8 +575,27 @@ pub fn number_to_exponential(
         ));
     }
 
-    let result = format!("{:.prec$e}", n, prec = digits as usize);
-    // Convert Rust's "e" notation to JS format (e.g., "1.23e2" -> "1.23e+2")
-    let result = result.replace("e", "e+").replace("e+-", "e-");
+    let sign = if n < 0.0 { "-" } else { "" };
+    let (m, e) = if n == 0.0 {
+        ("0".repeat(digits as usize + 1), 0)
+    } else if explicit.is_none() {
+        // As many digits as necessary: the shortest round-trip digits of Number::toString
+        let shortest = format!("{:e}", n.abs());
+        let (mantissa, exp) = shortest.split_once('e').unwrap_or((shortest.as_str(), "0"));
+        (
+            mantissa.chars().filter(|c| *c != '.').collect::<String>(),
+            exp.parse::<i32>().unwrap_or(0),
+        )
+    } else {
+        let (exact, e0) = exact_digits(n.abs());
+        let (rounded, e) = round_significant(&exact, e0, digits as usize + 1);
+        (digits_to_string(&rounded), e)
+    };
+    let (first, rest) = m.split_at(1);
+    let result = if rest.is_empty() {
+        format!("{}{}{}", sign, first, exponent_suffix(e))
+    } else {
+        format!("{}{}.{}{}", sign, first, rest, exponent_suffix(e))
+    };
     Ok(Guarded::unguarded(JsValue::String(JsString::from(result))))
 }
